@@ -209,8 +209,45 @@ def body(ctx, conv, nk, positive, order, dpos, two_depths, via, holes, zdtype=No
     ctx.check('time' in out.variables and 't' in out.dims, 'time coordinate kept')
 
 
+def body_deep(ctx, nk):
+    """Many layers (more than 127 / 255 / 32767 would fit in a narrow integer): the floor of each column is still its
+    deepest layer that holds data.  Then the same dataset object is edited in place and asked again: the answer is
+    about the dataset as it is now."""
+    from emsarray.operations import depth as depth_ops
+    nx = 5
+    wet = [nk, max(nk - 30, 1), min(130, nk), 128, 0]
+    order = int(ctx.int('deep_first', 0, 1))
+    z = numpy.arange(nk, dtype=float) * 2.0 + 1.0
+    vals = numpy.full((2, nk, 1, nx), numpy.nan)
+    for c, w in enumerate(wet):
+        vals[:, :w, 0, c] = numpy.arange(w)[None, :] * 10.0 + c + numpy.array([0.0, 0.5])[:, None]
+    if order:
+        z, vals = z[::-1].copy(), vals[:, ::-1].copy()
+    ds = builders.cf1d(1, nx, data_vars={'temp': (('t', 'k', 'y', 'x'), vals.copy())})
+    tv = xarray.Variable(('t',), numpy.array(['2000-01-01', '2000-01-02'], dtype='datetime64[ns]'), {'long_name': 'time'})
+    tv.encoding['units'] = 'days since 1990-01-01 00:00:00'
+    ds = ds.assign_coords(zc=(('k',), z, {'positive': 'down', 'long_name': 'depth'}), time=tv)
+    want = numpy.array([[(w - 1) * 10.0 + c + dt if w else numpy.nan for c, w in enumerate(wet)] for dt in (0.0, 0.5)])
+    out = depth_ops.ocean_floor(ds, ['zc'], non_spatial_variables=['time'])
+    got = out['temp'].values.reshape(2, nx)
+    ctx.check(bool(numpy.array_equal(got, want, equal_nan=True)), 'temp: deepest layer that holds data, at every location and time')
+    # through the convention, twice, with an in-place edit in between
+    first = ds.ems.ocean_floor()
+    ctx.check(bool(numpy.array_equal(first['temp'].values.reshape(2, nx), want, equal_nan=True)), 'temp: deepest layer that holds data, at every location and time')
+    ds['temp'].values[:, :, 0, 0] += 1000.0
+    ds['extra'] = (('k', 'y', 'x'), vals[0] * 2.0)
+    second = ds.ems.ocean_floor()
+    want2 = want.copy()
+    want2[:, 0] += 1000.0
+    ctx.check('extra' in second.variables and bool(numpy.array_equal(second['temp'].values.reshape(2, nx), want2, equal_nan=True))
+              and bool(numpy.array_equal(second['extra'].values.reshape(nx), want[0] * 2.0, equal_nan=True)),
+              'asked again after the dataset was edited in place, the answer is about the dataset as it is now')
+
+
 def cases(tier):
     q = tier == 'quick'
+    for nk in ((160,) if q else (160, 300, 33000)):
+        yield Case(f'deep:nk{nk}', body_deep, dict(nk=nk), max_paths=4)
     combos = []
     for positive in ('down', 'up'):
         for order in ('deep_first', 'shallow_first'):
